@@ -205,6 +205,9 @@ class Elements:
                 out.add({"items": ("tuple", (("key",), ("val",))), "keys": ("key",), "values": ("val",)}[p.func.attr])
             elif k == "expr" and isinstance(p, ast.Call) and isinstance(p.func, ast.Name) and p.func.id in ("list", "tuple", "iter") and len(p.args) == 1:
                 out |= self.elements(p.args[0], node, depth + 1)
+            elif k == "expr" and isinstance(p, ast.Call) and isinstance(p.func, ast.Name) and p.func.id == "enumerate" and 1 <= len(p.args) <= 2:
+                for d in self.elements(p.args[0], node, depth + 1):
+                    out.add(("tuple", (("index",), d)))
             elif k == "expr" and isinstance(p, (ast.ListComp, ast.GeneratorExp)) and len(p.generators) == 1 and not p.generators[0].ifs:
                 out |= self.describe(p.elt, None, depth + 1)
             elif k == "expr" and isinstance(p, ast.Name):
@@ -300,6 +303,19 @@ def check_xml_tables(ctx, an, model):
         sp = Spec(an, te, writer_decider(an, te, vparam, kind))
         wspec[kind] = sp
         rs = sp.raises()
+        # a raise that rejects a *member* of the value (a map key that is not a string) does not reject plain data of this kind
+        from engine.flow import dominating_guards as _dg
+
+        def member_level(r_):
+            for t_, tr_ in _dg(an, te, r_):
+                e_ = t_.ast
+                if isinstance(e_, ast.Call) and isinstance(e_.func, ast.Name) and e_.func.id == "isinstance" and len(e_.args) == 2 and isinstance(e_.args[0], ast.Name) \
+                        and ast.unparse(e_.args[1]) == "str" and tr_ is False:
+                    ss_ = sp.sources(e_.args[0], t_)
+                    if ss_ and all(k_ == "iter" for k_, _p in ss_):
+                        return True
+            return False
+        rs = [r_ for r_ in rs if not member_level(r_)]
         if rs and not sp.falls_off():
             ctx.ob("xml.writer-covers", te, "writer branch for %s" % kind, False,
                    "the XML writer has no branch for %s values: they are rejected" % kind, node=rs[0])
